@@ -69,7 +69,7 @@ func aggDirect(w *world, items []aggItem, bs int) (code, callerCode int) {
 	pn := safely(func() {
 		agg := encryption.GetAggregateSignatureScheme(encryption.SignatureSchemeBls0chain, len(items), bs)
 		for i, it := range items {
-			ss, err := w.verifier(it.Key)
+			ss, err := w.verifierShared(it.Key)
 			if err != nil {
 				code, callerCode = 1, 1
 				return
@@ -124,7 +124,15 @@ func sumsEqual(w *world, items []aggItem) bool {
 
 // tickets path: all items sign the same block hash; verifiers are registered miners of the
 // current magic block.
-func aggTickets(w *world, items []aggItem) (code int, ran bool) {
+// ticketPool: node objects (and their signature scheme objects) that persist across the calls of a history
+type ticketPool struct {
+	pool  *node.Pool
+	nodes map[string]*node.Node
+}
+
+func aggTickets(w *world, items []aggItem) (code int, ran bool) { return aggTicketsIn(w, items, nil) }
+
+func aggTicketsIn(w *world, items []aggItem, tp *ticketPool) (code int, ran bool) {
 	if len(items) == 0 {
 		return 0, false
 	}
@@ -144,13 +152,29 @@ func aggTickets(w *world, items []aggItem) (code int, ran bool) {
 	mb := block.NewMagicBlock()
 	mb.Miners = node.NewPool(node.NodeTypeMiner)
 	mb.Sharders = node.NewPool(node.NodeTypeSharder)
+	if tp != nil {
+		if tp.pool == nil {
+			tp.pool, tp.nodes = mb.Miners, map[string]*node.Node{}
+		}
+		mb.Miners = tp.pool
+	}
 	var bvts []*block.VerificationTicket
 	for _, it := range items {
-		nd := node.Provider()
-		nd.Type = node.NodeTypeMiner
-		nd.PublicKey = w.pubHex(it.Key)
-		if err := mb.Miners.AddNode(nd); err != nil {
-			return 0, false
+		pk := w.pubHex(it.Key)
+		var nd *node.Node
+		if tp != nil {
+			nd = tp.nodes[pk]
+		}
+		if nd == nil {
+			nd = node.Provider()
+			nd.Type = node.NodeTypeMiner
+			nd.PublicKey = pk
+			if err := mb.Miners.AddNode(nd); err != nil {
+				return 0, false
+			}
+			if tp != nil {
+				tp.nodes[pk] = nd
+			}
 		}
 		bvts = append(bvts, &block.VerificationTicket{VerifierID: nd.GetKey(), Signature: w.sigHex(it.Sig)})
 	}
@@ -168,6 +192,12 @@ func aggTickets(w *world, items []aggItem) (code int, ran bool) {
 
 // transactions path: message i is the hash of a real transaction whose client key is the item's key.
 func aggTxns(w *world, items []aggItem, bs int, r *vh.Rand) (code int, ran bool) {
+	return aggTxnsIn(w, items, bs, r, nil)
+}
+
+// txns (optional): the transaction of each message index, kept across the calls of a history so that
+// the same signer/hash pairs come back (the client cache keeps one scheme object per client id)
+func aggTxnsIn(w *world, items []aggItem, bs int, r *vh.Rand, txns map[int]*transaction.Transaction) (code int, ran bool) {
 	seenMsg := map[int]bool{}
 	for _, it := range items {
 		if seenMsg[it.Msg] {
@@ -183,6 +213,13 @@ func aggTxns(w *world, items []aggItem, bs int, r *vh.Rand) (code int, ran bool)
 	b.Round = 1
 	b.CreationDate = now
 	for _, it := range items {
+		if old, ok := txns[it.Msg]; ok {
+			if old.PublicKey != w.pubHex(it.Key) {
+				return 0, false
+			}
+			b.Txns = append(b.Txns, old.Clone())
+			continue
+		}
 		t := &transaction.Transaction{}
 		t.Version = "1.0"
 		t.PublicKey = w.pubHex(it.Key)
@@ -197,6 +234,9 @@ func aggTxns(w *world, items []aggItem, bs int, r *vh.Rand) (code int, ran bool)
 		t.Hash = t.ComputeHash()
 		w.msgs[it.Msg] = t.Hash
 		t.OutputHash = t.ComputeOutputHash()
+		if txns != nil {
+			txns[it.Msg] = t.Clone()
+		}
 		b.Txns = append(b.Txns, t)
 	}
 	for i, it := range items {
@@ -236,6 +276,67 @@ func dim(items []aggItem) int {
 		}
 	}
 	return n + 1
+}
+
+type histCall struct {
+	BS      int       `json:"bs"`
+	Pattern string    `json:"pattern"`
+	Items   []aggItem `json:"items"`
+}
+
+type c32Hist struct {
+	item
+	NKeys int        `json:"nkeys"`
+	Calls []histCall `json:"calls"`
+}
+
+// genHist: the same signers and hashes come back call after call: honest sets, re-checks of the same
+// set, singletons, and singletons carrying the SUM of an earlier honest set.
+func genHist(h *c32Hist, r *vh.Rand) {
+	h.NKeys = 4
+	same := r.Chance(2, 3) // one hash for everybody (tickets) or one hash per signer (transactions)
+	msgOf := func(k int) int {
+		if same {
+			return 0
+		}
+		return k
+	}
+	honest := func(keys []int) []aggItem {
+		var its []aggItem
+		for _, k := range keys {
+			its = append(its, aggItem{key(k), msgOf(k), genuine(k, msgOf(k))})
+		}
+		return its
+	}
+	bsFor := func(n int) int { return []int{1, 2, n, n + 3, 64}[r.Intn(5)] }
+	var lastSet []int
+	ncalls := r.Range(2, 7)
+	for c := 0; c < ncalls; c++ {
+		var call histCall
+		switch x := r.Intn(10); {
+		case x < 4 || lastSet == nil: // an honest set led by some signer
+			p := r.Perm(h.NKeys)
+			lastSet = p[:r.Range(2, h.NKeys)]
+			call = histCall{Pattern: "honest-set", Items: honest(lastSet)}
+		case x < 6: // the same set again
+			call = histCall{Pattern: "recheck", Items: honest(lastSet)}
+		case x < 7: // the leader alone, honestly
+			call = histCall{Pattern: "leader-alone", Items: honest(lastSet[:1])}
+		case x < 9: // the leader alone with the sum of the earlier set's signatures
+			var sum spoint
+			for _, k := range lastSet {
+				sum = append(sum, genuine(k, msgOf(k))...)
+			}
+			call = histCall{Pattern: "leader-with-sum-of-set", Items: []aggItem{{key(lastSet[0]), msgOf(lastSet[0]), sum}}}
+		default: // one corrupted signature in the set
+			its := honest(lastSet)
+			i := r.Intn(len(its))
+			its[i].Sig = append(its[i].Sig, pterm{sscalar{{int64(r.Range(1, 99)), -1}}, 20})
+			call = histCall{Pattern: "one-corrupted", Items: its}
+		}
+		call.BS = bsFor(len(call.Items))
+		h.Calls = append(h.Calls, call)
+	}
 }
 
 func genAgg(in *c32Input, r *vh.Rand) {
@@ -353,7 +454,9 @@ func runC32(o vh.Opts) {
 	rep.Rule = "1-10 signatures over 4 keys, distinct messages (transaction batches) or one message (tickets), batch sizes 1,2,3,5,n,n+3,64; " +
 		"corruption patterns: none, one corrupted, foreign key, wrong message, two and three cancelling perturbations, swapped signatures, rogue key, " +
 		"repeated item, non-cancelling pair, signatures summing to the identity (one = minus the sum of the others; arbitrary points; the identity alone); " +
-		"Verify judged both by its bool and by err only (what the callers look at); each run on the real aggregate scheme and, where the shape allows, on chain.VerifyTickets and miner.ValidateTransactions; " +
+		"Verify judged both by its bool and by err only (what the callers look at); plus histories of 2-7 verifications in sequence over the SAME " +
+		"long-lived scheme objects / node pool / client cache (honest set, re-check, leader alone, leader alone carrying the sum of the set, one corrupted), " +
+		"each call compared with the individual checks and with the same call on fresh objects; each run on the real aggregate scheme and, where the shape allows, on chain.VerifyTickets and miner.ValidateTransactions; " +
 		"individual Verify for every item. Non-trivial = at least two items and at least one corrupted signature or a batch split (batch size < n); distinct by the symbolic item list"
 	cf := &vh.CasesFile{Imports: []string{"Base.Corr", "Model.SigAlg", "Corr.SigAlg"}, CaseType: "sc_case", CheckFn: "sc_check"}
 	addCase := func(term string, in interface{}) {
@@ -456,10 +559,136 @@ func runC32(o vh.Opts) {
 		}
 	}
 
+	// ---- histories: several verifications in sequence over the SAME long-lived scheme objects ----
+	// returns the first failing signature and the index of the failing call
+	runHistory := func(h c32Hist, record, toCoq bool) (string, int) {
+		shared := newWorld(h.rand(), h.NKeys)
+		shared.msgs, shared.schemes = map[int]string{}, map[string]*encryption.BLS0ChainScheme{}
+		sharedTx := newWorld(h.rand(), h.NKeys)
+		sharedTx.msgs = map[int]string{}
+		tp := &ticketPool{}
+		txns := map[int]*transaction.Transaction{}
+		for ci, call := range h.Calls {
+			fresh := newWorld(h.rand(), h.NKeys) // same keys and messages, new objects
+			fresh.msgs = map[int]string{}
+			indiv := individual(fresh, call.Items)
+			allValid := true
+			for _, v := range indiv {
+				allValid = allValid && v
+			}
+			judge := func(path string, code, freshCode int) string {
+				if record {
+					rep.Count(fmt.Sprintf("history-%s-call%d-%d", path, min(ci, 3), code))
+				}
+				switch {
+				case code != freshCode:
+					return "C32:history-dependent-verdict"
+				case code == 2:
+					return "C32:panic"
+				case code == 0 && !allValid && !sumsEqual(fresh, call.Items):
+					return "C32:invalid-batch-accepted"
+				case code == 1 && allValid:
+					return "C32:valid-batch-rejected"
+				}
+				return ""
+			}
+			n := dim(call.Items)
+			in := c32Input{item: h.item, NKeys: h.NKeys, BS: call.BS, Pattern: call.Pattern, Items: call.Items}
+			code, callerCode := aggDirect(shared, call.Items, call.BS)
+			fcode, fcaller := aggDirect(fresh, call.Items, call.BS)
+			if toCoq {
+				addCase(in.coq(n, call.BS, indiv, code), h)
+			}
+			if f := judge("direct", code, fcode); f != "" {
+				return f, ci
+			}
+			if f := judge("direct-err-only", callerCode, fcaller); f != "" {
+				return f, ci
+			}
+			if tc, ran := aggTicketsIn(shared, call.Items, tp); ran {
+				ftc, _ := aggTickets(fresh, call.Items)
+				if toCoq {
+					addCase(in.coq(n, len(call.Items), indiv, tc), h)
+				}
+				if f := judge("tickets", tc, ftc); f != "" {
+					return f, ci
+				}
+			}
+			if tc, ran := aggTxnsIn(sharedTx, call.Items, call.BS, h.rand().Fork(), txns); ran {
+				// fresh run of the same transactions: rebuild the same hashes in a world of its own
+				fw := newWorld(h.rand(), h.NKeys)
+				fw.msgs = map[int]string{}
+				for k, v := range sharedTx.msgs {
+					fw.msgs[k] = v
+				}
+				indiv2 := individual(fw, call.Items)
+				ok2 := true
+				for _, v := range indiv2 {
+					ok2 = ok2 && v
+				}
+				if record {
+					rep.Count(fmt.Sprintf("history-txns-call%d-%d", min(ci, 3), tc))
+				}
+				if toCoq {
+					addCase(in.coq(n, call.BS, indiv2, tc), h)
+				}
+				switch {
+				case tc == 2:
+					return "C32:panic", ci
+				case tc == 0 && !ok2 && !sumsEqual(fw, call.Items):
+					return "C32:invalid-batch-accepted", ci
+				case tc == 1 && ok2:
+					return "C32:valid-batch-rejected", ci
+				}
+			}
+		}
+		return "", -1
+	}
+
+	handleHist := func(h c32Hist, toCoq bool) {
+		fail, at := runHistory(h, true, toCoq)
+		rep.Case(fmt.Sprintf("hist/%d/%d", h.Seed, h.Index), len(h.Calls) >= 2, h)
+		if fail != "" {
+			keep := vh.ShrinkIdx(len(h.Calls), func(keep []int) bool {
+				h2 := h
+				h2.Calls = nil
+				for _, i := range keep {
+					h2.Calls = append(h2.Calls, h.Calls[i])
+				}
+				f2, _ := runHistory(h2, false, false)
+				return f2 == fail
+			})
+			h2 := h
+			h2.Calls = nil
+			for _, i := range keep {
+				h2.Calls = append(h2.Calls, h.Calls[i])
+			}
+			rep.Violate(fail, fmt.Sprintf("call %d of a sequence of aggregate verifications over the same signature-scheme objects disagrees with the individual checks / with the same call on fresh objects", at), h2)
+		}
+	}
+
+	var rh c32Hist
+	if o.Replay != "" && o.LoadReplay(&rh) && len(rh.Calls) > 0 {
+		handleHist(rh, true)
+		files, err := cf.Write(o.Out, "C32")
+		if err != nil {
+			panic(err)
+		}
+		rep.CaseFiles = files
+		rep.ShardSize = 400
+		rep.Write(o.Out)
+		return
+	}
 	var rin c32Input
 	if o.LoadReplay(&rin) {
 		handle(rin, true)
 	} else {
+		nh := o.N(40, 600)
+		for i := 0; i < nh; i++ {
+			h := c32Hist{item: item{Prop: "C32", Stream: "history", Seed: o.Seed, Index: i}}
+			genHist(&h, h.rand().Fork())
+			handleHist(h, i < o.N(25, 120))
+		}
 		n := o.N(150, 3000)
 		coqN := o.N(120, 500)
 		for i := 0; i < n; i++ {
